@@ -277,11 +277,12 @@ Definition update_meta_ready (g : graph) : graph :=
                     (g_steps g)).
 
 (* pop_next_job, part A *)
-Definition update_meta (g : graph) : option graph :=
-  match update_meta_after (update_meta_safe g) with
+Definition update_meta_with (pol : merge_policy) (g : graph) : option graph :=
+  match update_meta_after (update_meta_safe_with pol g) with
   | Some g' => Some (update_meta_ready g')
   | None => None
   end.
+Definition update_meta (g : graph) : option graph := update_meta_with safe_merge g.
 
 (* ------------------------------------------------------------------------------------------ *)
 (* Dispatch                                                                                   *)
@@ -413,23 +414,30 @@ Definition run_trigger (body : list (flagcol * ttarget)) (self : N) (d : option 
 Definition dep_eqb (a b : dep) : bool := (d_src a =? d_src b) && (d_snk a =? d_snk b).
 
 (* INSERT INTO dependency (+ optional INSERT INTO dynamic_dep) *)
-Definition ins_dep (g : graph) (d : dep) : graph :=
+Definition ins_dep_with (trg : list (flagcol * ttarget)) (g : graph) (d : dep) : graph :=
   let g1 := with_deps g (g_deps g ++ [mkDep (d_src d) (d_snk d) false]) in
-  let g2 := run_trigger trg_dep_ins 0 (Some d) g1 in
+  let g2 := run_trigger trg 0 (Some d) g1 in
   if d_dyn d
   then run_trigger trg_dyn_ins 0 (Some d)
          (with_deps g2 (map (fun e => if dep_eqb e d then mkDep (d_src e) (d_snk e) true else e) (g_deps g2)))
   else g2.
+Definition ins_dep := ins_dep_with trg_dep_ins.
 
 (* DELETE FROM dynamic_dep (if dynamic; fires while the edge still exists) then DELETE FROM dependency *)
-Definition del_dep (g : graph) (d : dep) : graph :=
+Definition del_dep_with (trg : list (flagcol * ttarget)) (g : graph) (d : dep) : graph :=
   let g1 := if d_dyn d
             then run_trigger trg_dyn_del 0 (Some d)
                    (with_deps g (map (fun e => if dep_eqb e d then mkDep (d_src e) (d_snk e) false else e)
                                      (g_deps g)))
             else g in
   let g2 := with_deps g1 (filter (fun e => negb (dep_eqb e d)) (g_deps g1)) in
-  run_trigger trg_dep_del 0 (Some d) g2.
+  run_trigger trg 0 (Some d) g2.
+Definition del_dep := del_dep_with trg_dep_del.
+(* the trigger body without the statement that flags the producers of the source file *)
+Definition trg_dep_del_sink_only : list (flagcol * ttarget) :=
+  [(FAfter, TSource); (FAfter, TSink); (FReady, TSink)].
+Definition flags_producers (trg : list (flagcol * ttarget)) : bool :=
+  existsb (fun ct => match ct with (FAfter, TProducersOfSource) => true | _ => false end) trg.
 
 (* Step.set_state *)
 Definition set_step_state (g : graph) (k : N) (st : N) (df : bool) : graph :=
